@@ -200,6 +200,7 @@ FlatW(tr, fs) == IF fs = <<>> THEN <<>> ELSE Wire(tr, Head(fs)) \o FlatW(tr, Tai
 RxObs(tr, rc, errid, allocs, call, replies) ==
     <<rc, errid, allocs, allocs, 0, 0, IF call = <<>> THEN 0 ELSE 1>> \o call \o <<-7>> \o FlatW(tr, replies)
 
+IsVoid(cfg) == "void" \in DOMAIN cfg /\ cfg.void
 (* the set of observations the specification allows for this input *)
 RxAllowedFor(cfg, allocFail, verdict0, vaddr, dataIn, wireIn) ==
     LET u == Unframe(cfg.tr, wireIn)
@@ -228,10 +229,12 @@ RxAllowedFor(cfg, allocFail, verdict0, vaddr, dataIn, wireIn) ==
                   served == {TRUE, FALSE} \ ((IF isRead /\ ReadFits(cfg, o) THEN {FALSE} ELSE {})
                                              \cup (IF isRead /\ ReadTooBig(cfg, o) THEN {TRUE} ELSE {})
                                              \cup (IF ~isRead THEN {FALSE} ELSE {}))
-              IN {LET call == IF isRead /\ ~sv THEN <<>> ELSE IF Len(o) >= 12 THEN BackendCall(cfg, o, cls) ELSE <<>>
-                      verdict == IF isRead /\ ~sv THEN ETXOVERFLOW ELSE verdict0
-                      data == IF isRead /\ sv /\ verdict0 = ACK THEN Take(dataIn \o Fill(8192, 225), f.bs[2] * WordSize(f.opts)) ELSE <<>>
-                      replies == IF Len(o) < 12 THEN <<MetaMessage(cfg.tr, M_HEADERENC)>> ELSE ReplyFor(cfg, o, cls, verdict, vaddr, data)
+              IN {LET call == IF isRead /\ ~sv THEN <<>> ELSE IF Len(o) >= 12 /\ ~IsVoid(cfg) THEN BackendCall(cfg, o, cls) ELSE <<>>
+                      \* an instance nobody attached memory to answers every executable request "unmapped" at the request's address (extra X09)
+                      verdict == IF isRead /\ ~sv THEN ETXOVERFLOW ELSE IF IsVoid(cfg) THEN EUNMAPPED ELSE verdict0
+                      va == IF IsVoid(cfg) /\ Len(o) >= 12 THEN f.addr ELSE vaddr
+                      data == IF isRead /\ sv /\ verdict = ACK THEN Take(dataIn \o Fill(8192, 225), f.bs[2] * WordSize(f.opts)) ELSE <<>>
+                      replies == IF Len(o) < 12 THEN <<MetaMessage(cfg.tr, M_HEADERENC)>> ELSE ReplyFor(cfg, o, cls, verdict, va, data)
                   IN RxObs(cfg.tr, 0, cls, 1, call, replies) : sv \in served}
               : cls \in Classes(o)}
 
